@@ -25,7 +25,11 @@ def run(ctx: Ctx):
     f = sm.func("sympytools.py", "rhs_matrix")
     # the substitution loop: the while / for loop that applies xreplace / subs
     loops = [n for n in ast.walk(f.node) if isinstance(n, (ast.While, ast.For)) and any(isinstance(c, ast.Call) and isinstance(c.func, ast.Attribute) and c.func.attr in ("xreplace", "subs") for c in ast.walk(n))]
-    ctx.require(loops, "rhs_matrix: substitution loop not found")
+    if not loops:
+        for k_ in ("map", "substitute-full-map", "loop-condition", "error-only-if-left"):
+            ctx.undecided("R20.b", f.key(k_), "rhs_matrix: the loop that substitutes the intermediates is not found (the expansion is written in another way); fixpoint and bound are not judged", f.where())
+        _after_loop_rules(ctx, sm, f)
+        return
     w = loops[0]
     xr = [c for c in ast.walk(w) if isinstance(c, ast.Call) and isinstance(c.func, ast.Attribute) and c.func.attr in ("xreplace", "subs")]
     mnames = {norm(c.args[0]) for c in xr if len(c.args) == 1 and isinstance(c.args[0], ast.Name)}
@@ -127,6 +131,14 @@ def run(ctx: Ctx):
         okc = any(left_pred(g_.test) and not (isinstance(g_.test, ast.UnaryOp)) for g_ in guards)
         chain = cond_chain(f.node, r) or []
         ctx.check(okc, "R20.b", f.key("error-only-if-left"), "error only if intermediates are left", f"rhs_matrix raises under {[c for c, _ in chain]}: the error does not depend on intermediates actually being left (a model that was fully expanded on the last allowed pass is refused)", f.where(r))
+    _after_loop_rules(ctx, sm, f)
+
+
+def _after_loop_rules(ctx: Ctx, sm, f):
+    from sa import av as _av
+
+    from . import util
+
     # 4. call sites inside the package do not re-introduce a constant bound
     for g2 in sm.all_funcs():
         for c in find_calls(g2.node, "rhs_matrix"):
